@@ -44,7 +44,10 @@ THEOREMS = ["JanetModel.Props.C20." + t for t in (
     # descriptors (session 3): site table = model, ownership invariant, every C function balanced for all inputs, fds_balanced
     "fd_sites_match", "fd_cfg_match", "os_execute_no_leak", "net_listen_no_leak", "fd_op_ok", "fd_exec_inv", "fds_balanced",
     "fds_cycle_restores", "fds_from_start", "spawn_arg_error_leaks", "spawn_stdio_fail_leaks", "fopen_bad_size_leaks",
-    "connect_fail_double_close", "os_execute_check_detects")]
+    "connect_fail_double_close", "os_execute_check_detects",
+    # full subprocess-handle lifecycle (session 3)
+    "child_sites_match", "child_step_inv", "child_run_inv", "no_zombie_accumulates", "outstanding_wait_completes",
+    "kill_in_callback_window_hits_reaped_pid")]
 
 ENV = dict(os.environ, ASAN_OPTIONS="detect_leaks=0:abort_on_error=0", UBSAN_OPTIONS="print_stacktrace=1")
 SCRATCH = "/var/tmp/janet-verif-c20"
